@@ -255,6 +255,8 @@ type player struct {
 	releases map[string]chan struct{}
 	hits     map[string]chan struct{}
 	timeout  time.Duration
+
+	blockedSeen int
 }
 
 func (p *player) problem(sig, detail string) {
@@ -457,13 +459,43 @@ func (p *player) play(i int, o Op) {
 			case <-time.After(500 * time.Millisecond):
 			}
 		}
+	case "awaitblock":
+		// wait (briefly) until some resolver is held in "block" mode
+		before := 0
+		evs, _ := p.rec.Snapshot()
+		for _, e := range evs {
+			if e.Kind == "blocked" {
+				before++
+			}
+		}
+		if before <= p.blockedSeen {
+			deadline := time.Now().Add(500 * time.Millisecond)
+			for time.Now().Before(deadline) {
+				evs, ch := p.rec.Snapshot()
+				n := 0
+				for _, e := range evs {
+					if e.Kind == "blocked" {
+						n++
+					}
+				}
+				if n > p.blockedSeen {
+					before = n
+					break
+				}
+				select {
+				case <-ch:
+				case <-time.After(20 * time.Millisecond):
+				}
+			}
+		}
+		p.blockedSeen = before
 	case "release":
 		if rel := p.releases[o.ID]; rel != nil {
 			close(rel)
 			delete(p.releases, o.ID)
 		}
 	}
-	if o.Op == "pause" || o.Op == "awaitpause" {
+	if o.Op == "pause" || o.Op == "awaitpause" || o.Op == "awaitblock" {
 		return
 	}
 	switch o.Sync {
